@@ -1,0 +1,147 @@
+//! Verification hooks. Compiled only with `--cfg compio_verif`; every hook is a
+//! no-op until a harness calls [`start`] / [`block`].
+
+use std::sync::{
+    Mutex,
+    atomic::{AtomicBool, AtomicU64, Ordering},
+};
+
+/// One recorded event.
+#[derive(Clone, Copy, Debug)]
+pub struct Event {
+    /// Event kind, one of the constants of this module.
+    pub kind: u32,
+    /// First argument (usually the address of the operation storage).
+    pub a: u64,
+    /// Second argument (result, file descriptor, prior value, ...).
+    pub b: i64,
+    /// A small id of the emitting thread.
+    pub thread: u64,
+}
+
+/// Operation storage allocated.
+pub const KEY_NEW: u32 = 1;
+/// Operation storage freed.
+pub const KEY_FREE: u32 = 2;
+/// Operation handed to the kernel (io_uring: SQE queued with the key leaked into user_data).
+pub const SUBMIT: u32 = 3;
+/// A completion with the MORE flag arrived for the operation.
+pub const CQE_MORE: u32 = 4;
+/// The final completion arrived for the operation.
+pub const CQE_FINAL: u32 = 5;
+/// `set_result` stored the final result (b = result or -errno).
+pub const SET_RESULT: u32 = 6;
+/// The ring was closed in `Driver::drop`.
+pub const RING_CLOSED: u32 = 7;
+/// `Driver::drop` started.
+pub const DROP_BEGIN: u32 = 8;
+/// `Driver::drop` finished.
+pub const DROP_END: u32 = 9;
+/// An `AsyncCancel` was requested for the operation (b = 1 when queued).
+pub const CANCEL_PUSH: u32 = 10;
+/// The operation was handed to the blocking pool.
+pub const BLOCKING_DISPATCH: u32 = 11;
+/// A pool thread started running the operation.
+pub const BLOCKING_START: u32 = 12;
+/// A pool thread finished running the operation.
+pub const BLOCKING_END: u32 = 13;
+/// Polling driver: the operation was queued on descriptor b.
+pub const POLL_QUEUE: u32 = 14;
+/// Polling driver: the operation was removed from descriptor b by a cancel.
+pub const POLL_CANCEL: u32 = 15;
+/// `AwakeFlag::set`.
+pub const AWAKE_SET: u32 = 20;
+/// `AwakeFlag::reset` (b = prior value).
+pub const AWAKE_RESET: u32 = 21;
+/// `AwakeFlag::wake` (b = prior value).
+pub const AWAKE_WAKE: u32 = 22;
+/// The notifier was written (eventfd write / `Poller::notify`).
+pub const NOTIFY_WRITE: u32 = 23;
+/// The notifier eventfd was drained.
+pub const NOTIFY_CLEAR: u32 = 24;
+/// The multishot poll on the notifier was queued.
+pub const NOTIFIER_ARMED: u32 = 25;
+/// The multishot poll on the notifier terminated.
+pub const NOTIFIER_DISARMED: u32 = 26;
+/// The driver enters the kernel (a = completions wanted, b = 1 when it may block).
+pub const ENTER: u32 = 27;
+/// The driver returned from the kernel.
+pub const ENTER_RETURN: u32 = 28;
+/// A pool worker thread started (a = counter value before the increment).
+pub const WORKER_START: u32 = 30;
+/// A pool worker thread exits (idle timeout).
+pub const WORKER_EXIT: u32 = 31;
+/// A buffer-pool buffer changed hands (a = buffer id, b = new owner code).
+pub const POOL_BUF: u32 = 40;
+
+static LOG: Mutex<Option<Vec<Event>>> = Mutex::new(None);
+static NEXT_THREAD: AtomicU64 = AtomicU64::new(1);
+
+thread_local! {
+    static THREAD_ID: u64 = NEXT_THREAD.fetch_add(1, Ordering::Relaxed);
+}
+
+/// Start (or restart) recording.
+pub fn start() {
+    *LOG.lock().unwrap_or_else(|e| e.into_inner()) = Some(Vec::new());
+}
+
+/// Stop recording and return what was recorded.
+pub fn take() -> Vec<Event> {
+    LOG.lock()
+        .unwrap_or_else(|e| e.into_inner())
+        .take()
+        .unwrap_or_default()
+}
+
+/// Record an event (no-op unless recording).
+pub fn emit(kind: u32, a: u64, b: i64) {
+    let mut log = LOG.lock().unwrap_or_else(|e| e.into_inner());
+    if let Some(v) = log.as_mut() {
+        let thread = THREAD_ID.with(|t| *t);
+        v.push(Event { kind, a, b, thread });
+    }
+}
+
+/// Encode an `io::Result<usize>` as a signed integer.
+pub fn res_code(res: &std::io::Result<usize>) -> i64 {
+    match res {
+        Ok(n) => *n as i64,
+        Err(e) => -(e.raw_os_error().unwrap_or(9999) as i64),
+    }
+}
+
+const POINTS: usize = 64;
+static BLOCKED: [AtomicBool; POINTS] = [const { AtomicBool::new(false) }; POINTS];
+static ARRIVED: [AtomicU64; POINTS] = [const { AtomicU64::new(0) }; POINTS];
+
+/// A named point of the code; a thread reaching it waits while the point is blocked.
+pub fn sched_point(id: usize) {
+    if id >= POINTS {
+        return;
+    }
+    ARRIVED[id].fetch_add(1, Ordering::SeqCst);
+    while BLOCKED[id].load(Ordering::SeqCst) {
+        std::thread::yield_now();
+    }
+}
+
+/// Block (or unblock) a scheduling point.
+pub fn block(id: usize, on: bool) {
+    BLOCKED[id].store(on, Ordering::SeqCst);
+}
+
+/// How many times the point was reached.
+pub fn arrived(id: usize) -> u64 {
+    ARRIVED[id].load(Ordering::SeqCst)
+}
+
+/// Emits [`KEY_FREE`] when the operation storage it lives in is dropped.
+#[derive(Debug, Default)]
+pub struct FreeGuard(pub std::cell::Cell<u64>);
+
+impl Drop for FreeGuard {
+    fn drop(&mut self) {
+        emit(KEY_FREE, self.0.get(), 0);
+    }
+}
